@@ -67,7 +67,8 @@ impl Type {
             Type::Raw(path) => type_registry.get(path).and_then(|t| t.size()),
             Type::ConstPointer(_) => Some(type_registry.pointer_size()),
             Type::MutPointer(_) => Some(type_registry.pointer_size()),
-            Type::Array(tr, count) => tr.size(type_registry).map(|s| s * count),
+            // Saturates; sizes this large are rejected when the type is laid out
+            Type::Array(tr, count) => tr.size(type_registry).map(|s| s.saturating_mul(*count)),
             Type::Function(_, _, _) => Some(type_registry.pointer_size()),
         }
     }
